@@ -24,7 +24,8 @@ PROPERTY_ID = 'C09'
 RULE = ('base scenarios idle / mid-segment / awaiting ACK / queued-not-started / before establishment; for each, EVERY scheduler '
         'step index of the deterministic baseline run is used as cut-point x requester in {A, B, both in the same step} x action '
         'in {terminate, close, peer process death}; then the same under seeded random chunking/interleaving policies and pipe '
-        'capacities. Non-trivial = a run in which the request was accepted while the session was established or establishing; '
+        'capacities; plus one real endpoint against a conformant scripted peer that reads slowly through small socket buffers, acknowledges or refuses, '
+        'sends or answers SESS_TERM and then waits for the endpoint to close (never closes first); plus Agent.shutdown() of real agents holding 1-3 contacts at different stages. Non-trivial = a run in which the request was accepted while the session was established or establishing; '
         'distinct = distinct (scenario, cut-point, requester, action, dispatch-sequence hash).')
 ASSUMPTIONS = [
     'liveness is decided only at world quiescence (no ready source, nothing in flight); an exhausted step budget is inconclusive',
@@ -34,7 +35,7 @@ ASSUMPTIONS = [
 DECIDING = ['tcpcl.session:Messenger.send_sess_term', 'tcpcl.session:ContactHandler.recv_sess_term',
             'tcpcl.session:ContactHandler._check_sess_term', 'tcpcl.session:ContactHandler.close', 'tcpcl.session:Connection.close']
 REQUIRED_OBS = ['runs', 'terminate_accepted', 'terminate_refused', 'close_requests', 'disconnects', 'transfers_in_progress_at_term',
-                'queued_not_started_at_term', 'simultaneous_terminations']
+                'queued_not_started_at_term', 'simultaneous_terminations', 'waiter_terminations', 'waiter_closed_by_endpoint', 'agent_shutdowns']
 
 BASES = {
     'idle': dict(policy='rr', capacity=None, cfg_a={}, cfg_b={}, sends=[]),
@@ -64,6 +65,19 @@ def cases(tier, seed):
                                 stride=stride, seed=seed))
     for idx in range(400 if thorough else 32):
         out.append(dict(id='rand-%d' % idx, kind='rand', seed=seed * 50021 + idx, count=40 if thorough else 12))
+    for idx in range(24 if thorough else 6):
+        out.append(dict(id='waiter-%d' % idx, kind='waiter', seed=seed * 7907 + idx, count=40 if thorough else 14))
+    # Agent.shutdown(): every contact of the agent, with or without a session, must end (real agents, fake listener sockets)
+    idx = 0
+    for contacts in (1, 2, 3):
+        for who in ('A', 'B'):
+            for pre in ((0, 0), (7, 0), (40, 0), (40, 30), (200, 200)):
+                for bundles in (0, 2):
+                    idx += 1
+                    if not thorough and idx % 3:
+                        continue
+                    out.append(dict(id='agent-%d' % idx, kind='agent', contacts=contacts, who=who, pre_steps=pre[0], mid_steps=pre[1],
+                                    bundles=bundles, seed=seed + idx, policy=['fair', 'rr', 'burst'][idx % 3], stagger=[0, 15, 3][idx % 3]))
     return out
 
 
@@ -211,13 +225,167 @@ def judge(run, result, record, who, action, obs):
     return problems
 
 
+
+class Waiter(object):
+    ''' One real endpoint against a scripted, protocol-conformant peer that reads slowly through small socket buffers,
+    acknowledges (or refuses) what it receives, may send SESS_TERM itself, answers the endpoint's SESS_TERM, and then
+    WAITS for the endpoint to close instead of closing first.  Two real endpoints never show this: one of them always
+    closes first and the other follows the EOF. '''
+
+    def __init__(self, params):
+        from vf.world.sim import Sim
+        from vf import tcpcl_harness as th
+        self.params = params
+        self.sim = Sim(seed=params['seed'], policy=params.get('policy', 'eager'))
+        sock_a, sock_b = self.sim.net.tcp_pair(capacity=params['capacity'])
+        cfg = th.make_config('dtn://under-test/', segment_size_tx_initial=params['seg'])
+        if params['role'] == 'passive':
+            self.end = th.Endpoint(self.sim, 'E', cfg, sock_b, passive=True, peer_addr=('10.0.0.1', 40001))
+            self.peer_sock, self.end_sock = sock_a, sock_b
+        else:
+            self.end = th.Endpoint(self.sim, 'E', cfg, sock_a, passive=False, peer_addr=('10.0.0.2', 4556))
+            self.peer_sock, self.end_sock = sock_b, sock_a
+        self.inbuf = bytearray()    # octets the peer has read from the endpoint
+        self.pos = 0
+        self.got_contact = False
+        self.outbuf = bytearray()   # octets the peer wants to write
+        self.msgs = []              # messages of the endpoint decoded by the peer, in order
+        self.rx = {}                # endpoint transfer id -> octets received
+        self.peer_term_sent = False
+        self.end_term = []
+        self.acks = 0
+        self.end.start()
+
+    def queue(self, data):
+        self.outbuf += data
+
+    def pump(self, read_max):
+        ''' One peer turn: write what fits, read at most read_max octets, react. :return: True if anything moved. '''
+        moved = False
+        while self.outbuf:
+            count = self.peer_sock.tx.write(bytes(self.outbuf[:4096]))
+            if count == 0:
+                break
+            del self.outbuf[:count]
+            moved = True
+        pipe = self.end_sock.tx
+        take = bytes(pipe.rxbuf[:read_max])
+        if take:
+            del pipe.rxbuf[:len(take)]
+            pipe.read_total += len(take)
+            self.inbuf += take
+            moved = True
+        while True:
+            try:
+                if not self.got_contact:
+                    msg, end = tw.decode_contact(self.inbuf, self.pos)
+                    self.got_contact = True
+                else:
+                    msg, end = tw.decode_message(self.inbuf, self.pos)
+            except tw.Partial:
+                break
+            self.pos = end
+            self.msgs.append(msg)
+            self.react(msg)
+            moved = True
+        return moved
+
+    def react(self, msg):
+        params = self.params
+        if msg['type'] == 'XFER_SEGMENT':
+            tid = msg['transfer_id']
+            if params['refuse'] and msg['flags'] & tw.FLAG_START:
+                self.queue(tw.encode(dict(type='XFER_REFUSE', reason=2, transfer_id=tid)))
+                if params['peer_terminates'] == 'on-refuse' and not self.peer_term_sent:
+                    self.peer_term_sent = True
+                    self.queue(tw.encode(dict(type='SESS_TERM', flags=0, reason=0)))
+            self.rx[tid] = self.rx.get(tid, 0) + len(msg['data'])
+            if not params['refuse']:
+                self.queue(tw.encode(dict(type='XFER_ACK', flags=msg['flags'] & (tw.FLAG_START | tw.FLAG_END), transfer_id=tid, length=self.rx[tid])))
+                self.acks += 1
+            if params['peer_terminates'] == 'after-first-segment' and not self.peer_term_sent:
+                self.peer_term_sent = True
+                self.queue(tw.encode(dict(type='SESS_TERM', flags=0, reason=0)))
+        elif msg['type'] == 'SESS_TERM':
+            self.end_term.append(msg)
+            if not self.peer_term_sent and not (msg['flags'] & 1):
+                self.peer_term_sent = True
+                self.queue(tw.encode(dict(type='SESS_TERM', flags=1, reason=msg['reason'])))
+
+
+def run_waiter(params, obs):
+    wt = Waiter(params)
+    sim = wt.sim
+    problems = []
+    sim.settle(20000)
+    wt.queue(tw.encode(dict(type='contact', flags=0)))
+    wt.queue(tw.encode(dict(type='SESS_INIT', keepalive=0, segment_mru=params['mru'], transfer_mru=2 ** 30, nodeid=b'dtn://peer/', ext=[])))
+    for _ in range(50):
+        wt.pump(4096)
+        sim.settle(20000)
+        if any(msg['type'] == 'SESS_INIT' for msg in wt.msgs):
+            break
+    tids = []
+    for idx, length in enumerate(params['lengths']):
+        payload = bytes(((pos * 13) ^ idx ^ 0x51) & 0xFF for pos in range(length))
+        try:
+            tids.append(str(wt.end.call('send_bundle_data', dbus.ByteArray(payload))))
+        except Exception:  # pylint: disable=broad-except
+            pass
+    requested = False
+    turns = 0
+    idle_turns = 0
+    while turns < 20000 and idle_turns < 3:
+        turns += 1
+        if params['endpoint_terminates_at'] == turns and not requested:
+            requested = True
+            try:
+                wt.end.call('terminate', dbus.Byte(0))
+                obs['terminate_accepted'] += 1
+            except Exception:  # pylint: disable=broad-except
+                obs['terminate_refused'] += 1   # (already terminating / not established: an error reply at the boundary)
+        moved = wt.pump(params['read'])
+        res = sim.settle(20000)
+        if res != 'quiescent':
+            return None
+        idle_turns = 0 if (moved or wt.end_sock.tx.rxbuf or wt.outbuf) else idle_turns + 1
+        if wt.end_sock.closed:
+            break
+    obs['runs'] += 1
+    obs['waiter_runs'] += 1
+    errs = sim.world.callback_errors
+    if errs:
+        problems.append(('raised', 'event-loop callback %s raised %s: %s' % (errs[0].source, errs[0].exc_type, str(errs[0].exc)[:80])))
+    both_terms = wt.peer_term_sent and len(wt.end_term) >= 1
+    if both_terms:
+        obs['waiter_terminations'] += 1
+        if len(wt.end_term) != 1:
+            problems.append(('sess-term', 'the endpoint sent %d SESS_TERM' % len(wt.end_term)))
+        if not wt.end_sock.closed:
+            hdl = wt.end.hdl
+            problems.append(('half-open', 'both SESS_TERM exchanged, the peer has read and acknowledged everything and waits for the endpoint to close, '
+                             'but the endpoint is still open at quiescence (state %s, in_term %s, awaiting ack %d, unread by peer %d, unsent by peer %d)' % (
+                                 hdl.get_state() if hasattr(hdl, 'get_state') else '?', hdl._in_term, len(hdl._tx_pend_ack),
+                                 len(wt.end_sock.tx.rxbuf) + len(wt.end_sock.tx.inflight), len(wt.outbuf))))
+        else:
+            obs['waiter_closed_by_endpoint'] += 1
+    # every started transfer got a finished signal
+    path = wt.end.path
+    for tid in tids:
+        fin = [ev for ev in sim.hist.events if ev['kind'] == 'signal' and ev['path'] == path and ev['member'] == 'send_bundle_finished' and str(ev['args'][0]) == tid]
+        if both_terms and wt.end_sock.closed and len(fin) != 1:
+            problems.append(('finished-count', 'transfer %s has %d send_bundle_finished signals after the session ended' % (tid, len(fin))))
+    return problems
+
+
 def classify(kind, text):
     return None
 
 
 def run_case(case):
     obs = dict(runs=0, terminate_accepted=0, terminate_refused=0, close_requests=0, disconnects=0, transfers_in_progress_at_term=0,
-               queued_not_started_at_term=0, simultaneous_terminations=0, budget_exhausted=0, cut_points=0)
+               queued_not_started_at_term=0, simultaneous_terminations=0, budget_exhausted=0, cut_points=0,
+               waiter_runs=0, waiter_terminations=0, waiter_closed_by_endpoint=0, agent_shutdowns=0)
     violations = []
     classes = set()
     sample = None
@@ -241,7 +409,45 @@ def run_case(case):
                                    detail=dict(scenario=scn, cut=cut, who=who, action=action)))
         return run
 
-    if case['kind'] == 'cuts':
+    if case['kind'] == 'agent':
+        from vf.props import c18
+        params = {k: case[k] for k in ('contacts', 'who', 'pre_steps', 'mid_steps', 'bundles', 'seed', 'policy', 'stagger')}
+        obs18 = dict(agent_scenarios=0, runs=0, signals_checked=0, returns_checked=0)
+        problems = c18.agent_run(params, obs18)
+        evaluations += 1
+        obs['runs'] += 1
+        if problems is None:
+            obs['budget_exhausted'] += 1
+        else:
+            obs['agent_shutdowns'] += 1
+            classes.add('agent|%s' % sorted(params.items()))
+            sample = dict(agent=params)
+            for (kind, text) in problems:
+                if kind in ('shutdown', 'raised'):
+                    violations.append(dict(key=classify(kind, text), what='[agent/%s] %s (%s)' % (kind, text, sorted(params.items())), detail=dict(params=params)))
+    elif case['kind'] == 'waiter':
+        rng = random.Random(case['seed'])
+        for idx in range(case['count']):
+            params = dict(seed=case['seed'] * 100 + idx, role=rng.choice(['active', 'passive']), capacity=rng.choice([256, 1024, 4096]),
+                          read=rng.choice([64, 300, 1024, 5000]), seg=rng.choice([100, 1000, 104857]), mru=rng.choice([500, 2 ** 20]),
+                          lengths=[rng.choice([10, 3000, 20000, 60000]) for _ in range(rng.choice([1, 1, 2]))],
+                          refuse=rng.random() < 0.3, peer_terminates=rng.choice(['never', 'after-first-segment', 'on-refuse', 'after-first-segment']),
+                          endpoint_terminates_at=rng.choice([None, 1, 2, 5, 20]), policy=rng.choice(['eager', 'fair', 'rr']))
+            if params['peer_terminates'] == 'never' and params['endpoint_terminates_at'] is None:
+                params['endpoint_terminates_at'] = 3
+            if params['peer_terminates'] == 'on-refuse' and not params['refuse']:
+                params['peer_terminates'] = 'after-first-segment'
+            problems = run_waiter(params, obs)
+            evaluations += 1
+            if problems is None:
+                obs['budget_exhausted'] += 1
+                continue
+            classes.add('waiter|%s' % sorted((k, str(v)) for k, v in params.items()))
+            if sample is None:
+                sample = dict(waiter=params)
+            for (kind, text) in problems:
+                violations.append(dict(key=classify(kind, text), what='[waiter/%s] %s (%s)' % (kind, text, sorted(params.items())), detail=dict(params=params)))
+    elif case['kind'] == 'cuts':
         scn = dict(BASES[case['base']], id=case['base'], seed=case['seed'])
         base_run, base_res = scen.execute(scn, max_steps=60000)
         nsteps = base_run.steps_used + 2 if base_res == 'quiescent' else 200
